@@ -60,6 +60,19 @@ def gen_cases(tier, seed):
     for _ in range(2 if quick else 10):      # p = 1/2 through the accessor
         y = gaps(rng, series(rng, 10, "season"), -3000, 0.1)
         add({"variant": "wcvp", "y": [str(v) for v in y], "nd": "-3000", "grid": [sc.fl(-1.0 + 0.5 * k) for k in range(7)], "robust": False, "api": "accessor", "p": sc.fl(0.5), "dims": ["time", "y", "x"]})
+    # grids made of very small lambdas only ("any start"): the score has a finite limit as lambda -> 0, the reported lambda is
+    # still a grid entry and the band the fixed-lambda curve there
+    for k in range(6 if quick else 24):
+        variant = ["wcv", "wcvp"][k % 2]
+        n = rng.choice([8, 10, 12])
+        y = gaps(rng, series(rng, n, rng.choice(["noise", "season"])), -3000, [0.0, 0.2][(k // 2) % 2])
+        g = [[-9.0, -8.0, -7.0], [-8.0, -7.5, -7.0, -6.5], [-9.0, -7.0, -5.0, -3.0, -1.0, 1.0]][k % 3]
+        c = {"variant": variant, "y": [str(v) for v in y], "nd": "-3000", "grid": [sc.fl(v) for v in g], "robust": (k % 6) == 5, "api": ["kernel", "accessor"][(k // 3) % 2], "family": "lowgrid"}
+        if variant == "wcvp":
+            c["p"] = sc.fl(0.9)
+        if c["api"] == "accessor":
+            c["dims"] = ["time", "y", "x"]
+        add(c)
     for nv in (0, 1, 4, 5):       # fewer than 5 valid cells: unchanged, lambda 0
         for variant in ("wcv", "wcvp"):
             y = [-3000] * 9
